@@ -20,7 +20,20 @@ func vhName(tag string) string {
 	return vPick(tag, "a", "b", "d/a", "d/b", "e/a")
 }
 
+// vhHashShapes: hash objects may also be empty or carry two algorithms (menu 4), so that one object can be
+// a strict subset of another
+var vhHashShapes bool
+
 func vhHash(tag string) HashObj {
+	if vhHashShapes {
+		switch vChoice(tag+".shape", 3) {
+		case 0:
+			return HashObj{}
+		case 2:
+			return HashObj{"sha256": vPick(tag, "11", "22"), "sha512": vPick(tag+".second", "11", "33")}
+		}
+		return HashObj{"sha256": vPick(tag, "11", "22")}
+	}
 	return HashObj{vPick(tag+".alg", "sha256", "sha512"): vPick(tag, "11", "22")}
 }
 
@@ -43,7 +56,7 @@ func vhDstType(tag string) string { return vPick(tag, "MATERIALS", "PRODUCTS", "
 func vhDstName(tag string) string { return vPick(tag, "s", "o", "x") }
 
 // vhRule draws one rule; the rule kind is a case split, operands are symbolic.
-var vhRuleMenu int // 0: all 12 kinds; 1: reduced menu (ALLOW, REQUIRE, DISALLOW, malformed, MATCH with source prefix); 2: REQUIRE, DISALLOW, ALLOW; 3: MATCH with a source or a destination prefix from {'', d}, DISALLOW
+var vhRuleMenu int // 0: all 12 kinds; 1: reduced menu (ALLOW, REQUIRE, DISALLOW, malformed, MATCH with source prefix); 2: REQUIRE, DISALLOW, ALLOW; 3: MATCH with a source or a destination prefix from {'', d}, DISALLOW; 4: MATCH, MODIFY, DISALLOW over hash objects with 0, 1 or 2 algorithms
 
 func vhRule(tag string) []string {
 	k := 0
@@ -53,6 +66,8 @@ func vhRule(tag string) []string {
 		k = []int{2, 1, 0}[vChoice(tag+".kind", 3)]
 	} else if vhRuleMenu == 3 {
 		k = []int{7, 8, 1}[vChoice(tag+".kind", 3)]
+	} else if vhRuleMenu == 4 {
+		k = []int{6, 5, 1}[vChoice(tag+".kind", 3)]
 	} else {
 		k = vChoice(tag+".kind", 12)
 	}
@@ -274,6 +289,8 @@ func vhC03(a []int, twin bool) {
 	if len(a) > 7 {
 		vhRuleMenu = a[7]
 	}
+	vhHashShapes = vhRuleMenu == 4
+	defer func() { vhHashShapes = false }()
 	mats := vhArtifacts("mat", nm)
 	prods := vhArtifacts("prod", np)
 	omats := vhArtifacts("omat", no)
